@@ -307,7 +307,7 @@ C12_CFG = dict(
            ("rulesets", "base", 60, 800, 20, TINY, TINY_T),
            ("munch", "base", 60, 1600, 20, TINY, TINY_T),
            ("mixed", "base", 60, 800, 20, TINY, TINY_T),
-           ("eoimid", "base", 40, 800, 20, TINY, TINY_T)],
+           ("eoictx", "base", 40, 800, 20, TINY, TINY_T)],
 )
 
 
